@@ -87,6 +87,10 @@ def run(ctx):
     # rebind discipline: C16's cursor rules are part of this property's layout claim too
     import rules.C16 as C16
     C16.run(ctx)
+    # a parameter sent as long data is one of the values the client bound: which chunks are stored, where, and that the
+    # iterator takes them instead of inline bytes (C17's rules) decide whether the following parameters stay aligned
+    import rules.C17 as C17
+    C17.run(ctx)
 
     # ---- value layouts -----------------------------------------------------------------------------
     ct = [a for k_, a in prog.adts.items() if k_.endswith("constants::ColumnType")][0]
